@@ -78,6 +78,10 @@ func svDrainProbe(walk func(r *svRig, step int) *SAct, probe *FrameSpec) func(r 
 		}
 		if phase <= 2 {
 			if t := r.fwdTarget(); t >= 0 && !r.hs[t].inOp {
+				if r.ep.Pending() > 0 {
+					// drain its queue first: more envelopes are waiting behind the parked read loop
+					return &SAct{Op: "hstep", H: t, Hop: &HopSpec{Op: "recv"}}
+				}
 				return &SAct{Op: "hstep", H: t, Hop: &HopSpec{Op: "return"}}
 			}
 			for i, h := range r.hs {
